@@ -5,11 +5,11 @@ Require Import ExtrOcamlBasic.
 From Coq Require Import List ZArith.
 Require Import Gram.Model.Term Gram.Model.DeBruijn Gram.Model.Eval Gram.Spec.Cbv Gram.Spec.EvalEnv
   Gram.Model.Token Gram.Gen.TokenTables Gram.Model.Tokenizer Gram.Spec.TokenSpec
-  Gram.Model.Grammar Gram.Gen.ParserSkeleton Gram.Gen.GrammarY Gram.Model.Parser Gram.Model.ParserPost Gram.Spec.ScopeSpec Gram.Gen.ValueForms Gram.Model.Printer Gram.Model.Listing Gram.Spec.ListingSpec Gram.Spec.Typing Gram.Oracle.Infer.
+  Gram.Model.Grammar Gram.Gen.ParserSkeleton Gram.Gen.GrammarY Gram.Model.Parser Gram.Model.ParserPost Gram.Spec.ScopeSpec Gram.Gen.ValueForms Gram.Model.Printer Gram.Model.Listing Gram.Spec.ListingSpec Gram.Spec.Typing Gram.Oracle.Infer Gram.Model.ModelB.
 Extraction Language OCaml.
 Extraction "gram_model.ml"
   Z.add Z.mul Z.opp Z.sub Z.quotrem Z.compare Z.of_nat Z.to_nat
   sshift ushift open fvl occurs hole_free
   is_value step evaluate stuck_reason run_env obs_of_value obs_of_term
   tokenize asc partition_ok layout_ok kind_of all_kinds in_kinds E_spec S_spec is_lbv
-  parse_top grammar all_nts skeleton memo_flags reassociate scope_spec syntax_tree print has_unused_implicit_pi listing overline spec_linenos reparse_in_scope whnf convb infer nf group_type bind enter.
+  parse_top grammar all_nts skeleton memo_flags reassociate scope_spec syntax_tree print has_unused_implicit_pi listing overline spec_linenos reparse_in_scope whnf convb infer nf group_type bind enter tcB zonkB unifyB whnfB.
